@@ -22,6 +22,7 @@ unsigned int g_number;
 #define NOT_LISTED(k, dummy) ((size_t)(k) >= MODEL->compositions.n || MODEL->compositions.data[k] != g_number)
 #include "gen.c"
 
+#if !defined(VARIANT_PLUME) && !defined(VARIANT_DIST)
 struct Point2 Objects_NaturalCoordinate_get_surface_point__contract(struct Objects_NaturalCoordinate *this_)
 __CPROVER_requires(1) __CPROVER_assigns() __CPROVER_ensures(1)
 ;
@@ -35,12 +36,29 @@ __CPROVER_ensures(this_ == &MODEL->max_depth_surface ==> SAMEL(__CPROVER_return_
 #define MINL (this_->min_depth_surface.constant_value ? this_->min_depth : g_minl)
 #define MAXL (this_->max_depth_surface.constant_value ? this_->max_depth : g_maxl)
 #define INRANGE (depth <= this_->max_depth && depth >= this_->min_depth && depth <= MAXL && depth >= MINL)
+#define SURF_OK (IS_BOOL(this_->min_depth_surface.constant_value) && IS_BOOL(this_->max_depth_surface.constant_value))
+#define MPARAMS struct MTYPE *this_, struct Point3 *position, struct Objects_NaturalCoordinate *nat, double depth, unsigned int composition_number, double composition, double feature_min_depth, double feature_max_depth
+#elif defined(VARIANT_PLUME)
+/* plume models have no depth surfaces: the range is [min depth, max depth] */
+#define INRANGE (depth <= this_->max_depth && depth >= this_->min_depth)
+#define SURF_OK 1
+#define MPARAMS struct MTYPE *this_, struct Point3 *position, struct Objects_NaturalCoordinate *nat, double depth, unsigned int composition_number, double composition, double feature_min_depth, double feature_max_depth
+#else
+/* slab / fault models: the range is in the distance from the plane (fault: |distance| from the centre plane) */
+#ifdef IS_FAULT
+#define DIST __CPROVER_fabs(dist->distance_from_plane)
+#else
+#define DIST (dist->distance_from_plane)
+#endif
+#define INRANGE (DIST <= this_->max_depth && DIST >= this_->min_depth)
+#define SURF_OK 1
+#define MPARAMS struct MTYPE *this_, struct Point3 *position, double depth, unsigned int composition_number, double composition, double feature_min_depth, double feature_max_depth, struct Utilities_PointDistanceFromCurvedPlanes *dist, struct Features_FeatureUtilities_AdditionalParameters *additional_parameters
+#endif
 #define OP (this_->operation)
 
-double MCONTRACT(struct MTYPE *this_, struct Point3 *position, struct Objects_NaturalCoordinate *nat, double depth,
-                 unsigned int composition_number, double composition, double feature_min_depth, double feature_max_depth)
+double MCONTRACT(MPARAMS)
 __CPROVER_requires(g_model == this_ && g_number == composition_number && wb_thrown == 0)
-__CPROVER_requires(IS_BOOL(this_->min_depth_surface.constant_value) && IS_BOOL(this_->max_depth_surface.constant_value))
+__CPROVER_requires(SURF_OK)
 __CPROVER_requires(OP == E_Operations_REPLACE || OP == E_Operations_ADD || OP == E_Operations_SUBTRACT || OP == E_Operations_REPLACE_DEFINED_ONLY)
 /* representation invariant established by parse_entries: one fraction per listed composition */
 __CPROVER_requires(this_->compositions.n <= MAXP && this_->fractions.n == this_->compositions.n)
@@ -55,8 +73,14 @@ __CPROVER_ensures((!wb_thrown && INRANGE && g_listed && OP == E_Operations_SUBTR
 ;
 void h_composition_uniform(void)
 {
-  struct MTYPE m; struct Point3 p; struct Objects_NaturalCoordinate nat; double depth, c, fmin, fmax; unsigned int number;
+  struct MTYPE m; struct Point3 p; double depth, c, fmin, fmax; unsigned int number;
   HAVOC(g_model); HAVOC(g_minl); HAVOC(g_maxl); HAVOC(g_listed); HAVOC(g_first); HAVOC(g_number);
+#if defined(VARIANT_DIST)
+  struct Utilities_PointDistanceFromCurvedPlanes d; struct Features_FeatureUtilities_AdditionalParameters ap;
+  MFUNC(&m, &p, depth, number, c, fmin, fmax, &d, &ap);
+#else
+  struct Objects_NaturalCoordinate nat;
   MFUNC(&m, &p, &nat, depth, number, c, fmin, fmax);
+#endif
   REACHABLE();
 }
